@@ -637,6 +637,7 @@ func generate(r *hxlib.Run, emit func(hxlib.Case)) {
 			stats.reads += ro.res.Reads
 			stats.syscalls += int64(ro.res.Syscalls)
 			stats.events += int64(len(ro.res.Events))
+			stats.restarts += int64(ro.res.Restarts)
 			if ro.res.Killed {
 				stats.killed++
 			}
@@ -656,7 +657,7 @@ func generate(r *hxlib.Run, emit func(hxlib.Case)) {
 
 var (
 	statsMu sync.Mutex
-	stats   struct{ reads, syscalls, events, killed int64 }
+	stats   struct{ reads, syscalls, events, killed, restarts int64 }
 )
 
 func sizeClass(n int) string {
@@ -707,8 +708,8 @@ func main() {
 		return
 	}
 	hxlib.Main(&hxlib.Harness{
-		Prop: "C17",
-		Rule: "a case is one run of one real writer (renameio.WriteFile/Symlink, utils.CreateAtomic/CopyFileAtomic/ReplaceFileAtomic, fstree.Put, updater download via DownloadUpdates against an in-process HTTP server, updater.UnpackResources, File.Unpack) in a child process under a ptrace system-call stepper: once to completion and once per crash point k (killed immediately before its k-th file-system-mutating system call; all k when there are few, first/last/random k otherwise), over old states absent / present / present read-only / symlink / directory, contents empty / small / multi-MiB, TMPDIR on the same file system / on another file system / unusable / explicit temp dir, and failing operations (reader error, truncated HTTP body, 404, corrupt gzip / zip). Lines: initial snapshot, translated system calls, final snapshot; per call the errno and the destination as a reader sees it are compared between the kernel and the Lean file-system model, the final snapshot likewise, and the Lean safePublish checker runs on the actual call sequence. Non-trivial: the run issued at least one mutating call; distinct by the hash of the lines.",
+		Prop:     "C17",
+		Rule:     "a case is one run of one real writer (renameio.WriteFile/Symlink, utils.CreateAtomic/CopyFileAtomic/ReplaceFileAtomic, fstree.Put, updater download via DownloadUpdates against an in-process HTTP server, updater.UnpackResources, File.Unpack) in a child process under a ptrace system-call stepper: once to completion and once per crash point k (killed immediately before its k-th file-system-mutating system call; all k when there are few, first/last/random k otherwise), over old states absent / present / present read-only / symlink / directory, contents empty / small / multi-MiB, TMPDIR on the same file system / on another file system / unusable / explicit temp dir, and failing operations (reader error, truncated HTTP body, 404, corrupt gzip / zip). Lines: initial snapshot, translated system calls, final snapshot; per call the errno and the destination as a reader sees it are compared between the kernel and the Lean file-system model, the final snapshot likewise, and the Lean safePublish checker runs on the actual call sequence. Non-trivial: the run issued at least one mutating call; distinct by the hash of the lines.",
 		Generate: generate,
 		NewExec:  func(*hxlib.Run) hxlib.Exec { return &c17exec{} },
 		Monitor:  monitor,
@@ -716,7 +717,8 @@ func main() {
 			statsMu.Lock()
 			defer statsMu.Unlock()
 			return map[string]any{"concurrent_reader_observations": stats.reads, "syscall_stops_stepped": stats.syscalls,
-				"mutating_calls_translated": stats.events, "runs_killed_at_a_crash_point": stats.killed}
+				"mutating_calls_translated": stats.events, "runs_killed_at_a_crash_point": stats.killed,
+				"interrupted_calls_restarted": stats.restarts}
 		},
 	})
 }
